@@ -47,11 +47,47 @@ pub fn total_nodes() -> u64 {
     n
 }
 
+static TOTAL: std::sync::OnceLock<u64> = std::sync::OnceLock::new();
+static LEAVES: std::sync::OnceLock<BTreeMap<u64, u64>> = std::sync::OnceLock::new();
+
+/// number of root-to-leaf lines below each sub-table (by table index), from one walk
+fn leaf_counts() -> BTreeMap<u64, u64> {
+    fn walk(b: BookMoves, depth: u32, memo: &mut BTreeMap<u64, u64>) -> u64 {
+        let id = node_id(b);
+        if let Some(&n) = memo.get(&id) {
+            return n;
+        }
+        let mut n = 0;
+        if depth <= 64 {
+            if let Ok(ch) = children(b) {
+                for c in ch {
+                    n += walk(c.children, depth + 1, memo);
+                }
+            }
+        }
+        let n = n.max(1);
+        memo.insert(id, n);
+        n
+    }
+    let mut memo = BTreeMap::new();
+    walk(INITIAL_BOOOK_MOVES, 0, &mut memo);
+    memo
+}
+
 pub fn run(ctx: &mut Ctx) -> Step {
-    let games = match ctx.tier {
-        Tier::Quick => 4000,
-        Tier::Thorough => 12000,
+    let games = if ctx.claim == Prop::C07 {
+        400
+    } else {
+        match ctx.tier {
+            Tier::Quick => 50_000,
+            Tier::Thorough => 80_000,
+        }
     };
+    // one complete walk, used only as the denominator of the coverage figure
+    let total = *TOTAL.get_or_init(total_nodes);
+    let leaves = LEAVES.get_or_init(leaf_counts);
+    ctx.stats.max("max.book-total-lines", *leaves.get(&node_id(INITIAL_BOOOK_MOVES)).unwrap_or(&0));
+    ctx.stats.max("max.book-total-nodes", total);
     // visits per trie edge, inside this run only (a run stays a pure function of its tape)
     let mut visits: BTreeMap<u64, u32> = BTreeMap::new();
     for _ in 0..games {
@@ -60,6 +96,7 @@ pub fn run(ctx: &mut Ctx) -> Step {
         let mut board = Board::standard();
         let mut model = Pos1::standard();
         let mut depth = 0u32;
+        let mut path = crate::tape::FNV0;
         let mut line: Vec<String> = Vec::new();
         loop {
             let ch = match children(book) {
@@ -72,16 +109,30 @@ pub fn run(ctx: &mut Ctx) -> Step {
             if depth >= 64 {
                 return ctx.fail(Prop::C17, "book.nonterminating", format!("depth={depth}"), format!("line longer than 64 plies: {line:?}"));
             }
-            // least-visited child first, ties by the tape
-            let ids: Vec<u64> = ch.iter().map(|c| node_id(c.children)).collect();
-            let minv = ids.iter().map(|i| *visits.get(i).unwrap_or(&0)).min().unwrap_or(0);
-            let cands: Vec<usize> = (0..ch.len()).filter(|&i| *visits.get(&ids[i]).unwrap_or(&0) == minv).collect();
+            // least-visited child first, ties by the tape.  Children are identified by the
+            // *path* that leads to them (sub-tables are shared between lines, and legality
+            // depends on the path)
+            let ids: Vec<u64> = ch
+                .iter()
+                .map(|c| {
+                    let mut h = path;
+                    crate::tape::fnv(&mut h, &[c.source.to_u8(), c.dest.to_u8()]);
+                    h
+                })
+                .collect();
+            // prefer the child with the most lines not yet played below it
+            let left: Vec<i64> = (0..ch.len())
+                .map(|i| *leaves.get(&node_id(ch[i].children)).unwrap_or(&1) as i64 - *visits.get(&ids[i]).unwrap_or(&0) as i64)
+                .collect();
+            let best = left.iter().copied().max().unwrap_or(0);
+            let cands: Vec<usize> = (0..ch.len()).filter(|&i| left[i] == best).collect();
             let pick = cands[ctx.tape.choose(cands.len() as u32) as usize];
             // the CLI takes the child by position with nth(); do the same
             let mv = op(Op::Book, || book.into_iter().nth(pick)).unwrap();
             *visits.entry(ids[pick]).or_insert(0) += 1;
             ctx.stats.distinct.insert(ids[pick]);
             ctx.stats.distinct_nontrivial.insert(ids[pick]);
+            path = ids[pick];
             let m = Mv::new(mv.source.to_u8(), mv.dest.to_u8(), 0);
             line.push(m.text());
             let legal = model.legal_moves();
